@@ -18,6 +18,7 @@ class FunctionResult:
         self.paths = 0
         self.error = None         # Unsupported / crash text
         self.outcomes = {}        # 'normal' / 'raise:X' -> count
+        self.path_ends = {}       # reason -> number of paths abandoned for it (loop iteration done, infeasible, ...)
         self.requires_formula = None
         self.seconds = 0.0
         self.sha = None
@@ -274,8 +275,9 @@ def verify_function(I, c, fi):
             st = State(trace=trace, sink=sink, worklist=worklist, label=c.key)
             try:
                 run_path(I, st, c, fi, res)
-            except PathEnd:
-                pass
+            except PathEnd as pe:
+                why = str(pe) or "-"
+                res.path_ends[why] = res.path_ends.get(why, 0) + 1
             res.paths += 1
             if res.paths > MAX_PATHS:
                 raise Unsupported("more than %d paths in %s" % (MAX_PATHS, fi.qualname))
@@ -305,7 +307,7 @@ def verify_function(I, c, fi):
 # =======================================================================================
 def find_base_contract(I, c, fi):
     """the abstract base contract (if any) that call sites use for this override"""
-    if fi.cls is None:
+    if fi.cls is None or "no-refinement-check" in (c.notes or ""):
         return None, None
     for anc in fi.cls.mro()[1:]:
         fm = anc.methods.get(fi.name)
